@@ -6,7 +6,7 @@ tables), selected as plain columns, explicit labels (names drawn from a pool tha
 collides with column names, with each other, with the ``a_1`` / ``anon_1`` / ``t_a`` forms
 SQLAlchemy generates itself), anonymous expressions, literals, literal_column, functions,
 CAST / type_coerce, unary minus and repeated elements; three label styles;
-wrapped in subqueries / CTEs, UNIONs, ``text().columns()`` (positional, by name, none);
+whole-table selects (``select(child, parent)``), wrapped in subqueries / CTEs, UNIONs, ``text().columns()`` (positional, by name, none);
 ``text("SELECT * ...").columns(name=type)`` re-executed while the table is re-created with
 another column order; on engines with label_length None/6/10/30; each statement built twice with fresh
 objects so that the second execution goes through the compiled cache and
@@ -71,6 +71,13 @@ LONG = ["very_long_column_name_number_one_a", "very_long_column_name_number_one_
 # (the FK naming pattern): a *primary* result name that is also a *secondary* name of another column
 COLS = ["id", "a", "b", "x"] + LONG + ["t_id", "u_a"]
 TABLES = ["t", "u", "a_rather_long_table_name_for_labels"]
+# table t has no column "t_id" and u no "u_a" (else Column._tq_label evades the collision with "_1"):
+# u.t_id is *named* like the <table>_<col> label of t.id, t.u_a like that of u.a
+MISSING = {0: {"t_id"}, 1: {"u_a"}, 2: set()}
+
+
+def table_cols(ti):
+    return [(ci, cn) for ci, cn in enumerate(COLS) if cn not in MISSING[ti]]
 NROWS = 3
 M = 1_000_000
 LABEL_POOL = ["a", "b", "id", "x", "t_a", "u_a", "t_id", LONG[0], LONG[0][:-1] + "z", LONG[1], "lbl1", "lbl2", "my col", "A",
@@ -99,7 +106,7 @@ class El:
     def bare(self):
         return self.nk in ("col", "label", "cast", "tcoerce")
 
-    def names(self):
+    def names(self, strict=False):
         s = set()
         if self.label is not None:
             s.add(self.label)
@@ -108,6 +115,10 @@ class El:
             s.add(self.src.name)
             if self.src.tname:
                 s.add(f"{self.src.tname}_{self.src.name}")
+                # Column._tq_label appends "_1" when the table itself has a column called <table>_<col>
+                # (a tolerated secondary name only: not a user-visible name for the must-raise rule)
+                if not strict:
+                    s.add(f"{self.src.tname}_{self.src.name}_1")
         return s
 
 
@@ -136,7 +147,7 @@ class Gen:
             used_names.add(name)
             off = 0 if j == 0 else r.randint(0, 2)
             cols = []
-            for ci, cn in enumerate(COLS):
+            for ci, cn in table_cols(ti):
                 cols.append(SrcCol(tb.c[cn], (lambda base, c=code(ti, ci), off=off: c * M + base + off), cn, name, (name, cn)))
             srcs.append((tb, ti, off, cols))
         tb0, ti0, _, cols0 = srcs[0]
@@ -221,6 +232,24 @@ class Gen:
         decode = lambda v, c=id_code, K0=K0: v - c * M - K0
         return stmt, els, decode, srcs
 
+    def whole_tables(self):
+        """``select(child, parent)``: every column of two or three joined tables, in table order - the
+        everyday shape in which a column name of one table (``t_id``) equals the <table>_<col> label of a
+        column of a table selected later"""
+        sa, r = self.sa, self.r
+        srcs, frm = self.sources(r.choice([2, 2, 3]))
+        id0 = srcs[0][3][0]
+        els = [self.marker(id0, 0)]
+        for _, _, _, cols in srcs:
+            cols = list(cols)
+            if r.random() < 0.3:
+                r.shuffle(cols)
+            for sc in cols[: r.choice([len(cols), len(cols), 5])]:
+                els.append(El(sc.obj, "col", sc.exp, None, sc))
+        stmt = sa.select(*[e.obj for e in els]).select_from(frm)
+        decode = lambda v, c=code(srcs[0][1], 0): v - c * M
+        return stmt, els, decode
+
     def wrapped(self, how):
         sa, r = self.sa, self.r
         inner, iels, decode, srcs = self.plain(K0=0, unique_names=True)
@@ -238,7 +267,7 @@ class Gen:
             off = r.randint(0, 1)
             _, ti0, _, _ = srcs[0]
             frm = sub.join(tb, (tb.c.id - code(ti, 0) * M) == (subcols[0] - code(ti0, 0) * M) + off)
-            for ci, cn in enumerate(COLS):
+            for ci, cn in table_cols(ti):
                 pool.append(SrcCol(tb.c[cn], (lambda base, c=code(ti, ci), off=off: c * M + base + off), cn, an, (an, cn)))
         K0 = 0
         els = [self.marker(pool[0], K0)]
@@ -306,6 +335,12 @@ def check_rows(ctx, sa, rows, keys, els, decoders, extra_objs, desc, cached, tex
     for e in els:
         if e.src is not None and e.bare:
             bare_count[e.src.ident] = bare_count.get(e.src.ident, 0) + 1
+    def via_unary(pos_list):
+        """the column at these positions is also selected under a unary minus, whose result-map entry is
+        registered by (and carries every string name of) the inner column: same root cause as for objects"""
+        return any(els[j].src is not None and els[j].src.ident in neg_idents and
+                   sum(1 for x in els if x.src is not None and x.src.ident == els[j].src.ident and (x.bare or x.nk == "neg")) >= 2 for j in pos_list)
+
     cand = set(keys)
     for ns in name_sets:
         cand |= ns
@@ -366,7 +401,7 @@ def check_rows(ctx, sa, rows, keys, els, decoders, extra_objs, desc, cached, tex
             keypos = [j for j in range(n) if keys[j] == s]
             # positions whose *user-visible* name (label, column name, tablename_column) is s and that
             # result.keys() lists under s; generated anon / truncated / dedupe keys do not count
-            userpos = [j for j in keypos if s in els[j].names()]
+            userpos = [j for j in keypos if s in els[j].names(strict=True)]
             ctx.count("string_lookups")
             try:
                 got = m[s]
@@ -384,7 +419,8 @@ def check_rows(ctx, sa, rows, keys, els, decoders, extra_objs, desc, cached, tex
                     where = [j for j in range(n) if want[j] == got]
                     kinds = sorted({els[j].kind for j in allowed})
                     carriers = allowed
-                    ctx.violation("dedupe-proxy-key-shadows-result-key" if shadowed(s, carriers, els) else "string-key-foreign-value:" + "+".join(kinds) + (":text" if textual else ""),
+                    ctx.violation("dedupe-proxy-key-shadows-result-key" if shadowed(s, carriers, els) else
+                                  "unary-minus-registers-inner-column" if via_unary(carriers) else "string-key-foreign-value:" + "+".join(kinds) + (":text" if textual else ""),
                                   f"{tag}: _mapping[{s!r}] returned {got} = value of position {where}, but the name belongs to {carriers}",
                                   dict(desc, key=s, keys=list(keys)))
                 elif len(userpos) >= 2 and len({want[j] for j in userpos}) >= 2:
@@ -398,7 +434,8 @@ def check_rows(ctx, sa, rows, keys, els, decoders, extra_objs, desc, cached, tex
                 must = len(carriers) == 1 and not also and (keys[carriers[0]] == s or els[carriers[0]].label == s)
                 if must:
                     kd = els[carriers[0]].kind
-                    ctx.violation("dedupe-proxy-key-shadows-result-key" if shadowed(s, carriers, els) else "unambiguous-string-key-raised:" + raised + ":" + kd + (":text" if textual else ""),
+                    ctx.violation("dedupe-proxy-key-shadows-result-key" if shadowed(s, carriers, els) else
+                                  "unary-minus-registers-inner-column" if via_unary(carriers) else "unambiguous-string-key-raised:" + raised + ":" + kd + (":text" if textual else ""),
                                   f"{tag}: {s!r} names only position {carriers} but lookup raised {raised}", dict(desc, key=s, keys=list(keys)))
             # attribute access must agree
             if s.isidentifier() and not s.startswith("_") and s not in ("count", "index", "t", "tuple"):
@@ -420,7 +457,7 @@ def setup_engine(sa, tables, md, label_length):
     with eng.begin() as c:
         md.create_all(c)
         for ti, tb in enumerate(tables):
-            c.execute(sa.insert(tb), [{cn: code(ti, ci) * M + rn for ci, cn in enumerate(COLS)} for rn in range(1, NROWS + 3)])
+            c.execute(sa.insert(tb), [{cn: code(ti, ci) * M + rn for ci, cn in table_cols(ti)} for rn in range(1, NROWS + 3)])
     return eng
 
 
@@ -431,6 +468,10 @@ def build(sa, tables, seed, how):
     out = {"how": how, "extra": [], "textual": False}
     if how in ("subquery", "cte"):
         stmt, els, decode = g.wrapped(how)
+        stmt, out["style"] = g.style(stmt)
+        out.update(stmt=stmt, els=els, decoders=[(decode, els)])
+    elif how == "tables":
+        stmt, els, decode = g.whole_tables()
         stmt, out["style"] = g.style(stmt)
         out.update(stmt=stmt, els=els, decoders=[(decode, els)])
     elif how == "union":
@@ -551,10 +592,10 @@ def run(ctx):
 
     warnings.simplefilter("ignore", sa.exc.SAWarning)
     md = sa.MetaData()
-    tables = [sa.Table(nm, md, *[sa.Column(cn, sa.Integer) for cn in COLS]) for nm in TABLES]
+    tables = [sa.Table(nm, md, *[sa.Column(cn, sa.Integer) for _, cn in table_cols(ti)]) for ti, nm in enumerate(TABLES)]
     engines = [(ll, setup_engine(sa, tables, md, ll)) for ll in LABEL_LENGTHS]
     rng = ctx.rng
-    hows = ["plain", "plain", "plain", "subquery", "cte", "union", "text_pos", "text_name", "text_plain"]
+    hows = ["plain", "plain", "tables", "subquery", "cte", "union", "text_pos", "text_name", "text_plain", "plain"]
     ncases = ctx.pick({"quick": 50, "thorough": 1000})
     try:
         for k in range(ncases):
